@@ -21,6 +21,7 @@ R_j = int(n * c_j / 100.0) are computed here with Python's float arithmetic and 
 (the theorems take them as inputs); their contract (non-decreasing, <= n, < n except the last) is checked per case.
 """
 import ast
+import functools
 import json
 import math
 import struct
@@ -81,7 +82,11 @@ def jv(v):
 
 def can(t: str, v) -> bool:
     """is the logical value v exactly representable as a scalar of type t"""
-    f = exact(v)
+    return _can(t, exact(v))
+
+
+@functools.lru_cache(maxsize=200000)
+def _can(t: str, f: Fraction) -> bool:
     if t == "int":
         return f.denominator == 1
     if t in ("bool", "np.bool_"):
